@@ -676,6 +676,42 @@ def _collection_builders(body, source):
     return out, used
 
 
+def translate_prune(tree):
+    """_prune_empty_dirs, statement by statement: `todo = sorted(dirs)`; while the stack is not empty: pop; [skip what
+    was seen before]; if it is an empty directory and rmdir succeeds: report, push the parent unless its name is
+    '..', '.' or ''.  Returns whether a path is examined at most once (a `seen` set)."""
+    where = "_prune_empty_dirs"
+    fn = find_function(tree, "_prune_empty_dirs")
+    body = [_ws(ast.unparse(st)) for st in body_without_docstring(fn)]
+    stmts = body_without_docstring(fn)
+    once = False
+    if len(stmts) == 3 and body[1] == "seen = set()":
+        once = True
+        del stmts[1], body[1]
+    if len(stmts) != 2 or body[0] != "todo = sorted(dirs)" or not isinstance(stmts[1], ast.While) or stmts[1].orelse \
+            or _ws(ast.unparse(stmts[1].test)) not in ("len(todo) > 0", "todo", "len(todo) != 0"):
+        raise TranslatorError(f"{where}: not `todo = sorted(dirs)` followed by a loop until the stack is empty")
+    lb = list(stmts[1].body)
+    texts = [_ws(ast.unparse(st)) for st in lb]
+    if not texts or texts[0] != "path = todo.pop()":
+        raise TranslatorError(f"{where}: the loop does not start by popping the stack")
+    guard = [_ws("if path in seen:\n    continue"), "seen.add(path)"]
+    if texts[1:3] == guard:
+        if not once:
+            raise TranslatorError(f"{where}: seen is used but not initialised")
+        del lb[1:3], texts[1:3]
+    elif once:
+        raise TranslatorError(f"{where}: a seen set that is not used in the recognised way")
+    want = _ws("if path.is_dir() and (not any(path.iterdir())) and _try_remove(path.rmdir):\n"
+               "    await reporter('REMOVE', path)\n    parent = path.parent\n"
+               "    if parent.name not in ('..', '.', ''):\n        todo.append(parent)")
+    if texts[1:] != [want]:
+        raise TranslatorError(f"{where}: the body of the loop changed: {texts[1:]}")
+    if "seen" in _names_in(fn) and not once:
+        raise TranslatorError(f"{where}: use of `seen` not understood")
+    return once
+
+
 def translate_remove(en):
     """remove_deletable_files / _prune_empty_dirs / _try_remove.  The loop over the queued files is read
     structurally: for which kinds of path (lstat) the recorded hash is compared before the removal, and whether all
@@ -779,25 +815,14 @@ def translate_remove(en):
     nrem = sum(1 for n in ast.walk(fn) if isinstance(n, ast.Attribute) and n.attr in REMOVERS)
     if nrem != 1:
         raise TranslatorError(f"{where}: {nrem} removal primitives, expected exactly path.remove")
-    fn = find_function(tree, "_prune_empty_dirs")
-    src = ast.unparse(fn)
-    frags = [
-        "todo = sorted(dirs)",
-        "path = todo.pop()",
-        "if path.is_dir() and (not any(path.iterdir())) and _try_remove(path.rmdir):",
-        "parent = path.parent",
-        "if parent.name not in ('..', '.', ''):\n            todo.append(parent)",
-    ]
-    for f in frags:
-        if not _has(src, f):
-            raise TranslatorError(f"_prune_empty_dirs: fragment missing: {f[:70]!r}")
+    prune_once = translate_prune(tree)
     fn = find_function(tree, "_try_remove")
     src = ast.unparse(fn)
     if not _has(src, "try:\n        remove()\n    except OSError:\n        return False\n    return True"):
         raise TranslatorError("_try_remove changed")
     if skips_linked:
         _check_has_linked_parent()
-    return checked, decide_first, requeues, skips_linked
+    return checked, decide_first, requeues, skips_linked, prune_once
 
 
 def translate_clean(en):
@@ -990,7 +1015,7 @@ def generate():
     sql_kinds = classify_sql_sites(sql_sites)
     table = translate_hash_transitions()
     r_need, r_from, r_to, r_exempt, r_step_to = translate_revert(en)
-    rdf_checked, rdf_decide_first, rdf_requeues, rdf_skips_linked = translate_remove(en)
+    rdf_checked, rdf_decide_first, rdf_requeues, rdf_skips_linked, prune_once = translate_remove(en)
     clean_states, clean_missing_follows, clean_checked, clean_skips_linked, clean_compared = translate_clean(en)
     sites, callers = scan_removal_sites()
     unknown = [s for s in sites if s not in KNOWN_REMOVAL_SITES]
@@ -1100,6 +1125,9 @@ def generate():
         "(* does anything survive in Workflow.to_be_deleted when the function returns?  false: the queue is cleared last;",
         "   true: paths whose removal failed but which still exist are put back after the clear(), with their directories *)",
         f"Definition rdf_requeues_failed : bool := {'true' if rdf_requeues else 'false'}.",
+        "(* finalize.py _prune_empty_dirs: is a path on the stack examined at most once (a `seen` set)?  false: the parent",
+        "   pushed after a removed child is examined again, however often it was seen before *)",
+        f"Definition prune_visits_once : bool := {'true' if prune_once else 'false'}.",
         "(* is a queued / selected path below a directory that is a symbolic link left alone (has_linked_parent guard)? *)",
         f"Definition rdf_skips_linked_parents : bool := {'true' if rdf_skips_linked else 'false'}.",
         f"Definition clean_skips_linked_parents : bool := {'true' if clean_skips_linked else 'false'}.",
@@ -1120,7 +1148,7 @@ def generate():
              "declare_sites": declare_sites, "create_sites": create_sites, "removal_sites": sites,
              "callers": sorted(cl), "fs": fs,
              "mark_dir_skips_static_trees": skips_trees, "keep_volatile_on_supply": keep_vol,
-             "rdf_hash_checked": rdf_checked, "rdf_decide_first": rdf_decide_first, "rdf_requeues_failed": rdf_requeues, "rdf_skips_linked_parents": rdf_skips_linked,
+             "rdf_hash_checked": rdf_checked, "rdf_decide_first": rdf_decide_first, "rdf_requeues_failed": rdf_requeues, "prune_visits_once": prune_once, "rdf_skips_linked_parents": rdf_skips_linked,
              "clean_skips_linked_parents": clean_skips_linked,
              "clean_missing_follows_links": clean_missing_follows, "clean_hash_checked": clean_checked}
     return "\n".join(lines), facts
